@@ -20,6 +20,7 @@ fn main() {
     let mut tier = std::env::var("VERIF_TIER").unwrap_or_else(|_| "quick".into());
     let mut seed: u64 = std::env::var("VERIF_SEED").ok().and_then(|s| s.parse().ok()).unwrap_or(1);
     let mut replay = None;
+    let mut log_only: Option<String> = None;
     let mut i = 2;
     while i < args.len() {
         match args[i].as_str() {
@@ -29,6 +30,10 @@ fn main() {
             }
             "--seed" => {
                 seed = args[i + 1].parse().expect("seed");
+                i += 1;
+            }
+            "--log-only" => {
+                log_only = Some(args[i + 1].clone());
                 i += 1;
             }
             "--replay" => {
@@ -70,6 +75,10 @@ fn main() {
     // A panic inside a monitor (as opposed to one caught and classified by it) is a harness
     // error: inconclusive, never a verdict.
     util::install_panic_hook();
+    if let Some(path) = log_only {
+        checks::c20::log_only(&mut run, &path);
+        std::process::exit(0);
+    }
     let ok = checks::dispatch(&id, &mut run);
     if !ok {
         eprintln!("unknown check {id}");
